@@ -5,12 +5,12 @@ package main
 import (
 	"context"
 	"encoding/binary"
-	"io"
-	"os"
 	"errors"
 	"fmt"
+	"io"
 	"math/rand/v2"
 	"net"
+	"os"
 	"sort"
 	"strings"
 	"sync"
@@ -456,7 +456,11 @@ func runC07Case(dir string, cs c07Case, tag string, res *ev.Result) {
 		var o out
 		d := make(chan struct{})
 		go func() { defer close(d); o.contrib, o.has, o.err = c07Send(rt.A, kind, id, largeKB) }()
-		st := rig.Await(d, nominal, c07Hard)
+		hard := c07Hard
+		if 3*nominal > hard {
+			hard = 3 * nominal // the heavy child: longer timeouts, larger requests
+		}
+		st := rig.Await(d, nominal, hard)
 		return o, st
 	}
 	id1 := tag + "-r1"
